@@ -238,13 +238,13 @@ def stepEncB (which : String) (caps : Nat) (cells : List (Cell G)) (impl : Strin
 /-- ParserIO's oracle is indexed by the byte offset of the rune that starts the cluster: the uniseg table (one entry per rune)
     re-indexed by the UTF-8 offsets of the runes. -/
 def clusterAtOf (tb : List Nat) (rs : List Nat) : Nat → Nat :=
-  let rec go : List Nat → List Nat → Nat → List (Nat × Nat)
-    | [], _, _ => []
-    | r :: w, tb, pos => (pos, tb.headD 1) :: go w (tb.drop 1) (pos + (VaxisModel.Model.ParserUtf8.encodeRune r).length)
-  let tab := go rs tb 0
-  fun pos => match tab.find? (fun p => p.1 == pos) with
-    | some p => p.2
-    | none => 1
+  let total := (rs.map (fun r => (VaxisModel.Model.ParserUtf8.encodeRune r).length)).sum
+  let rec go : List Nat → List Nat → Nat → Array Nat → Array Nat
+    | [], _, _, a => a
+    | r :: w, tb, pos, a =>
+      go w (tb.drop 1) (pos + (VaxisModel.Model.ParserUtf8.encodeRune r).length) (a.setIfInBounds pos (tb.headD 1))
+  let arr := go rs tb 0 (Array.replicate (total + 1) 1)
+  fun pos => arr.getD pos 1
 
 def stepDecB (which : String) (dflt : Style) (h : String) (table : String) (impl : String) : String :=
   match runesOfHex? h, (if table = "-" then some [] else commaNats? table) with
